@@ -93,6 +93,39 @@ def targeted_trees():
     return out
 
 
+def ladder_trees():
+    """5.5 default priorities, systematically: for every node kind the pattern forms of each priority class that can match it
+    (processing-instruction('t') and NCName / @name = 0; *, @*, node(), text(), comment(), processing-instruction() = -0.5; a pattern
+    with a predicate or more than one step = 0.5), every ordered pair of them without explicit priority, and each form next to a
+    competitor whose explicit priority lies between / on the class values (-0.5, -0.25, 0, 0.25, 0.5), in both document orders."""
+    a, b = t_name("a"), t_name("b")
+    P = lambda *steps, **kw: path(list(steps), **kw)
+    ch = lambda t, *p: step("child", t, *p)
+    at = lambda t, *p: step("attribute", t, *p)
+    TRUE1 = bin_("=", num(1), num(1))
+    kinds = {
+        "elem": [P(ch(b)), P(ch(T_ANY)), P(ch(T_NODE)), P(ch(b, TRUE1)), P(ch(T_ANY), ch(b)), P(ch(T_ANY, TRUE1))],
+        "text": [P(ch(T_TEXT)), P(ch(T_NODE)), P(ch(T_TEXT, TRUE1)), P(ch(T_ANY), ch(T_TEXT))],
+        "comment": [P(ch(T_COMMENT)), P(ch(T_NODE)), P(ch(T_COMMENT, TRUE1))],
+        "pi": [P(ch(t_pi("t"))), P(ch(t_pi())), P(ch(T_NODE)), P(ch(t_pi("t"), TRUE1)), P(ch(T_ANY), ch(t_pi()))],
+        "attr": [P(at(t_name("x"))), P(at(T_ANY)), P(at(t_name("x"), TRUE1)), P(ch(T_ANY), at(T_ANY))],
+    }
+    def rule(rid, pat, pr):
+        return {"rid": rid, "pat": pat, "mode": "m", "hasPrio": pr is not None, "prio": {"k": "fin", "neg": (pr or 0) < 0, "m": abs(pr or 0)}, "imports": False}
+    def tree(rs):
+        return {"id": 1, "rules": rs, "imports": [], "qmode": False, "style": 0}
+    out = []
+    for forms in kinds.values():
+        for i, p1 in enumerate(forms):
+            for j, p2 in enumerate(forms):
+                if i != j:
+                    out.append(tree([rule(1, p1, None), rule(2, p2, None)]))
+            for pr in (-4, -2, 0, 2, 4):                  # eighths: -0.5 -0.25 0 0.25 0.5
+                out.append(tree([rule(1, p1, None), rule(2, forms[-1] if p1 is not forms[-1] else forms[0], pr)]))
+                out.append(tree([rule(1, forms[-1] if p1 is not forms[-1] else forms[0], pr), rule(2, p1, None)]))
+    return out
+
+
 def render_module(mod, first_line, is_main):
     """returns (text, line->rid map, next free line). One template per line; lines are globally unique.
     Lexical variation that must not matter (XSLT 2.4: an unprefixed QName in mode= is in NO namespace, whatever default namespace
@@ -212,11 +245,17 @@ def run(res, tier, seed):
                             xdm.E("b", xdm.E("b"), xdm.E("b", a=[xdm.A("x", "2")]), xdm.T("t")))))
     flats = [xdm.flatten(t, c02.ID_ATTRS) for t in docs]
     targeted = targeted_trees()
+    nunion = len(targeted)
+    ladder = ladder_trees()
+    targeted = targeted + ladder
+    # a document with an element b (with @x), text, a comment and two processing instructions under an element: the ladder family's
+    docs.append(xdm.R(xdm.E("c", xdm.E("b", xdm.T("t"), xdm.C("c"), xdm.PI("t", "d"), xdm.PI("u", ""), a=[xdm.A("x", "1")]), xdm.PI("t", ""), xdm.C("k"))))
+    flats = [xdm.flatten(t, c02.ID_ATTRS) for t in docs]
     ncases = (400 if quick else 8000) + len(targeted)
     cases, metas = [], []
     for k in range(ncases):
         tree = gen_tree(rng) if k >= len(targeted) else targeted[k]
-        d = rng.randrange(len(docs)) if k >= len(targeted) else len(docs) - 1
+        d = rng.randrange(len(docs)) if k >= len(targeted) else (len(docs) - 2 if k < nunion else len(docs) - 1)
         cdir = os.path.join(wd, "case%d" % k)
         lmap = write_case(cdir, tree, c02.doc_xml(docs[d]))
         cases.append({"id": k, "dir": cdir, "trace": "all", "select": False})
@@ -292,7 +331,8 @@ def run(res, tier, seed):
             res.violation(rj["msg"][:200], [ex[0], dict(ex[1], flatdoc=flats[ex[1]["docn"] - 1]), ev])
     res.cov["traces_validated_against_impl"] = nexec - len(bad)
     res.cov["distinct_nontrivial"] = len(nontriv)
-    res.cov["rule"] = ("%d targeted rule sets (a union rule with unequal default priorities x a competitor of every relative priority x document order / import) + " % len(targeted) +
+    res.cov["rule"] = ("%d targeted rule sets (a union rule with unequal default priorities x a competitor of every relative priority x document order / import; the default-priority "
+                       "ladder: per node kind every ordered pair of pattern forms of the classes -0.5 / 0 / 0.5 and each form against explicit priorities -0.5 .. 0.5) + " % len(targeted) +
                        "seeded rule sets: 1-9 rules over a 26-pattern pool (unions with unequal default priorities, *, node(), text(), @*, '/', predicates), priorities "
                        "{none,-1,-0.25,0,0.25,0.5,1,2}, a tested and a distractor mode, import trees (flat / one / two / chain / two+chain), apply-imports bodies; every node "
                        "and attribute of the document is pushed through apply-templates; non-trivial = at least 3 different rules chosen or an apply-imports pick; distinct by (rule tree, document)")
